@@ -6,7 +6,7 @@ import ast
 from pta.check import Spec
 from pta.model import AnalysisError
 from pta.order import scan
-from pta.tables.order_reviewed import REVIEWED
+from pta.tables.order_reviewed import REVIEWED, Reviewed
 
 # modules whose behaviour ends up in the artefacts the property names
 ARTEFACT_MODULES = [
@@ -41,17 +41,16 @@ def r_unordered(c):
     if len(sites) < 30:
         raise AnalysisError(f"only {len(sites)} iteration sites over unordered "
                             "values found (floor 30): type inference broken")
-    used = set()
+    rv = Reviewed()
     for s in sites:
         where = m.loc(m.module_of(s.node), s.node)
         inst = s.stmt_text[:120]
         if s.discharged:
             c.ok("R17-UNORDERED", s.func, inst, where,
                  f"{s.why}; discharged: {s.discharged}")
-        elif s.key in REVIEWED:
-            used.add(s.key)
+        elif (why_ := rv.lookup(s)) is not None:
             c.exempt("R17-UNORDERED", s.func, inst, where,
-                     f"{s.why}; reviewed: {REVIEWED[s.key]}")
+                     f"{s.why}; reviewed: {why_}")
         else:
             c.violation(
                 "R17-UNORDERED", s.func, inst, where,
@@ -60,7 +59,7 @@ def r_unordered(c):
                 "addresses. Sort it, use an ordered set, or review the instance",
                 facts={"why": s.why, "key": s.key})
     for k in REVIEWED:
-        if k not in used:
+        if k not in rv.matched:
             c.notes.append(f"reviewed-instance entry no longer matches: {k[:90]}")
 
 
@@ -69,6 +68,7 @@ def r_emitter_dict_order(c):
     mods = [x for x in EMITTERS if x in m.modules]
     sites = scan(m, mods, external_order_types={"DictOfNamedArrays"})
     n = 0
+    rv = Reviewed()
     for s in sites:
         if "caller-determined order" not in s.why:
             continue
@@ -77,8 +77,8 @@ def r_emitter_dict_order(c):
         inst = s.stmt_text[:120]
         if s.discharged:
             c.ok("R17-DICT-ORDER", s.func, inst, where, s.discharged)
-        elif s.key in REVIEWED:
-            c.exempt("R17-DICT-ORDER", s.func, inst, where, REVIEWED[s.key])
+        elif (why_ := rv.lookup(s)) is not None:
+            c.exempt("R17-DICT-ORDER", s.func, inst, where, why_)
         else:
             c.violation(
                 "R17-DICT-ORDER", s.func, inst, where,
